@@ -848,9 +848,9 @@ DELTA_SHAPES = {
 FACTORS_NEAR = [0.5, 1 - 1e-6, 1.0, 1 + 1e-6, 2.0, 0.999, 1.001, 1.0, 1.0]
 
 
-def student_variant(rng, kind, ans, tol, exact, samples_hint):
+def student_variant(rng, kind, ans, tol, exact, samples_hint, fams=None):
     """returns (family, student tree, tolerance)"""
-    fam = rng.choice(['delta', 'delta', 'scale', 'scale', 'branch', 'rewrite', 'rewrite', 'same'])
+    fam = rng.choice(fams or ['delta', 'delta', 'scale', 'scale', 'branch', 'rewrite', 'rewrite', 'same'])
     base = 'real' if kind == 'numerical' else kind
     if fam == 'delta':
         mk, nrm = rng.choice(DELTA_SHAPES[base])
@@ -962,7 +962,8 @@ def make_case(rng, exact, forced=None):
         fam, stu = 'same', ans
     style = {'spaces': rng.random() < 0.4, 'parens': rng.random() < 0.4, 'seed': rng.randrange(1 << 30)}
     return {'kind': kind, 'n': n, 'failable': failable, 'tol': list(tol), 'answer': ans, 'student': stu, 'family': fam,
-            'samples': samples, 'funcs': funcs, 'exact': exact, 'answer_cfg': rng.choice(ANSWER_CFGS), 'style': style}
+            'samples': samples, 'funcs': funcs, 'exact': exact, 'answer_cfg': rng.choice(ANSWER_CFGS), 'style': style,
+            'vkind': vkind}
 
 
 def walk(node):
@@ -979,33 +980,93 @@ def walk(node):
                         yield from walk(y)
 
 
-def run_case(case, cap):
-    """run one grader case on the implementation.  Returns a dict with everything observed."""
+def open_case(case):
+    """build the grader object of a case (with recording samplers)"""
     tol = tuple(case['tol'])
     RecordingSet = rec_class()
     samplers = {k: RecordingSet(values=list(v)) for k, v in case['samples'].items()}
-    srng = random.Random(case['style']['seed'])
     ans_text = render(case['answer'])
-    stu_text = render(case['student'], srng, case['style']['spaces'], case['style']['parens'])
     st, g = core.guarded(build_grader, case['kind'], ans_text, case['answer_cfg'], tol, case['n'], case['failable'], samplers,
                          function_samplers(case))
     if st != 'ret':
-        return {'status': 'construct-failed', 'error': repr(g), 'ans_text': ans_text, 'stu_text': stu_text}
-    answer = g.config['answers'][0]
+        return {'failed': repr(g), 'ans_text': ans_text}
     fsamplers = {}
     if case.get('funcs'):
-        import numpy as np
         fsamplers = {k: record_function_sampler(v) for k, v in g.random_funcs.items()}
-        # RandomFunction / SpecificFunctions draw from the global generators: pin them to the case
-        np.random.seed(case['style']['seed'] % (1 << 32))
-        random.seed(case['style']['seed'])
+    answer = g.config['answers'][0]
+    return {'g': g, 'samplers': samplers, 'fsamplers': fsamplers, 'ans_text': ans_text,
+            'answer': {k: answer[k] for k in ('ok', 'grade_decimal', 'msg')}}
+
+
+def submit(h, student, style, cap):
+    """one submission to an open grader object; the recordings are those of THIS call only"""
+    srng = random.Random(style['seed'])
+    stu_text = render(student, srng, style['spaces'], style['parens'])
+    g = h['g']
+    if h['fsamplers']:
+        import numpy as np
+        # RandomFunction / SpecificFunctions draw from the global generators: pin them to the submission
+        np.random.seed(style['seed'] % (1 << 32))
+        random.seed(style['seed'])
+    mark = {k: len(x.handed_out) for k, x in h['samplers'].items()}
+    fmark = {k: len(x.handed_out) for k, x in h['fsamplers'].items()}
     cap.reset()
     st, out = core.guarded(g, None, stu_text)
     return {'status': st, 'result': out if st == 'ret' else None, 'error': None if st == 'ret' else repr(out),
-            'answer': {k: answer[k] for k in ('ok', 'grade_decimal', 'msg')}, 'ans_text': ans_text, 'stu_text': stu_text,
-            'handed_out': {k: list(s.handed_out) for k, s in samplers.items()},
-            'handed_fn': {k: list(s.handed_out) for k, s in fsamplers.items()},
+            'answer': h['answer'], 'ans_text': h['ans_text'], 'stu_text': stu_text,
+            'handed_out': {k: list(x.handed_out[mark[k]:]) for k, x in h['samplers'].items()},
+            'handed_fn': {k: list(x.handed_out[fmark[k]:]) for k, x in h['fsamplers'].items()},
             'evals': cap.evals, 'results': cap.results, 'config_tolerance': g.config['tolerance']}
+
+
+def run_case(case, cap):
+    """run one grader case on the implementation: a fresh grader object, the earlier submissions of case['history'] (if any)
+    on that same object, then the submission under test.  Returns a dict with everything observed for the last call."""
+    h = open_case(case)
+    if 'failed' in h:
+        return {'status': 'construct-failed', 'error': h['failed'], 'ans_text': h['ans_text'], 'stu_text': render(case['student'])}
+    for past in case.get('history', []):
+        submit(h, past['student'], past['style'], cap)
+    return submit(h, case['student'], case['style'], cap)
+
+
+def run_session(session, cap):
+    """one grader object, many submissions (wrong ones interleaved).  Yields (case, observation) per submission; each case
+    carries the submissions that preceded it on the object, so it replays on its own."""
+    base = session['base']
+    h = open_case(base)
+    history = []
+    for sub in session['submissions']:
+        case = dict(base, student=sub['student'], family=sub['family'], style=sub['style'], history=list(history))
+        if 'failed' in h:
+            yield case, {'status': 'construct-failed', 'error': h['failed'], 'ans_text': h['ans_text'], 'stu_text': ''}
+            return
+        yield case, submit(h, sub['student'], sub['style'], cap)
+        history.append({'student': sub['student'], 'style': sub['style']})
+
+
+def make_session(rng, exact):
+    """a grader configuration with >= 2 samples and failable_evals in {0, 1, 2, samples - 1}, and 5-9 submissions:
+    the usual families (more weight on formulas that agree on part of the sampling set) with far-off ones interleaved"""
+    while True:
+        base = make_case(rng, exact)
+        if base['n'] >= 2 and base['kind'] != 'numerical':
+            break
+    base['failable'] = rng.choice([0, 1, 1, 2, 2, base['n'] - 1])
+    tol = tuple(base['tol'])
+    subs = [{'student': base['student'], 'family': base['family'], 'style': base['style']}]
+    fams = ['delta', 'scale', 'scale', 'branch', 'branch', 'branch', 'rewrite', 'same']
+    if base['kind'] in ('func', 'const'):
+        fams = ['delta', 'scale', 'scale', 'rewrite', 'same']
+    mk, _ = DELTA_SHAPES[base['vkind']][0]
+    for _ in range(rng.randint(3, 6)):
+        if rng.random() < 0.6:
+            far = ('add', base['answer'], mk(rng.choice([100, 1000, 64])))
+            subs.append({'student': far, 'family': 'far', 'style': {'spaces': False, 'parens': False, 'seed': rng.randrange(1 << 30)}})
+        fam, stu, _t = student_variant(rng, base['vkind'], base['answer'], tol, exact, base['samples'], fams)
+        subs.append({'student': stu, 'family': fam,
+                     'style': {'spaces': rng.random() < 0.3, 'parens': rng.random() < 0.3, 'seed': rng.randrange(1 << 30)}})
+    return {'base': base, 'submissions': subs}
 
 
 def oracle_case(case, obs):
@@ -1048,8 +1109,9 @@ def oracle_case(case, obs):
 
 
 def case_key(case):
-    return 'grader:%s/%s/n%d/f%d/%r/%s' % (case['kind'], case['family'], case['n'], case['failable'], case['tol'],
-                                           render(case['student']))
+    return 'grader:%s/%s/n%d/f%d/%r/%s%s' % (case['kind'], case['family'], case['n'], case['failable'], case['tol'],
+                                             render(case['student']),
+                                             ('/after %d on %s' % (len(case['history']), render(case['answer']))) if case.get('history') else '')
 
 
 def grader_term(case, obs):
@@ -1142,11 +1204,32 @@ def corpus():
     return out
 
 
+def session_corpus():
+    """fixed histories on one grader object: far-off submissions interleaved with a formula that misses at exactly two of
+    five samples (x < 0 at samples 2 and 4), for every failable_evals of interest"""
+    out = []
+    st = {'spaces': False, 'parens': False, 'seed': 1}
+    s5 = {'x': [1.0, -2.0, 3.0, -4.0, 5.0], 'y': [2.0, 3.0, -1.0, 2.0, 4.0]}
+    xy = ('add', ('mul', X('x'), X('y')), N(3))
+    br = ('add', xy, ('mul', N(1), ('sub', ('call', 'abs', X('x')), X('x'))))
+    vec = ('vec', [X('x'), ('mul', N(2), X('x')), N(3)])
+    vbr = ('vec', [('call', 'abs', X('x')), ('mul', N(2), X('x')), N(3)])
+    for kind, ans, part, far in (('real', xy, br, ('add', xy, N(100))),
+                                 ('vector', vec, vbr, ('add', vec, ('vec', [N(100), N(0), N(0)])))):
+        for f in (0, 1, 2, 4):
+            base = {'kind': kind, 'vkind': kind, 'n': 5, 'failable': f, 'tol': ['abs', 1], 'answer': ans, 'student': ans,
+                    'family': 'same', 'samples': s5 if kind == 'real' else {'x': s5['x']}, 'funcs': {}, 'exact': True,
+                    'answer_cfg': {'grade_decimal': 1, 'msg': ''}, 'style': st}
+            subs = [(ans, 'same'), (part, 'branch'), (far, 'far'), (part, 'branch'), (far, 'far'), (far, 'far'), (part, 'branch'),
+                    (ans, 'same'), (part, 'branch')]
+            out.append({'base': base, 'submissions': [{'student': t, 'family': fam, 'style': st} for t, fam in subs]})
+    return out
+
+
 def run_graders(ctx, res, rng):
     quick = ctx['tier'] == 'quick'
-    n_cases = 1500 if quick else 14000
-    if ctx['escalate'] and quick:
-        n_cases = 1500
+    n_cases = 1100 if quick else 12000
+    n_sessions = 90 if quick else 900
     cases = corpus()
     res.distribution['corpus_cases'] = len(cases)
     for i in range(n_cases):
@@ -1154,16 +1237,28 @@ def run_graders(ctx, res, rng):
     # perturb-then-probe: the fixed corpus runs once more AFTER the varied batch (other classes, options, sampled functions,
     # tolerances); the oracle is the property itself, so a verdict that depends on what ran before is a witness here too
     cases += corpus()
+    # one grader object, many submissions: the verdict of every call is judged by the same per-call oracle
+    sessions = session_corpus() + [make_session(rng, exact=(i % 2 == 0)) for i in range(n_sessions)]
+    res.distribution['reused_grader_objects'] = len(sessions)
+    res.distribution['submissions_to_reused_objects'] = sum(len(x['submissions']) for x in sessions)
+
+    def stream(cap):
+        for case in cases:
+            try:
+                yield case, run_case(case, cap)
+            except EvalError as e:
+                res.notes.append('generator problem: %s' % e)
+        for session in sessions:
+            try:
+                for pair in run_session(session, cap):
+                    yield pair
+            except EvalError as e:
+                res.notes.append('generator problem: %s' % e)
     terms, metas = [], []
     dist = {}
     verd = {'credit': 0, 'no-credit': 0, 'band': 0}
     with Capture() as cap:
-        for case in cases:
-            try:
-                obs = run_case(case, cap)
-            except EvalError as e:
-                res.notes.append('generator problem: %s' % e)
-                continue
+        for case, obs in stream(cap):
             res.oracle_evals += 1
             if obs['status'] == 'construct-failed':
                 res.witnesses.append({'key': 'construct:%r/%d/%d' % (case['tol'], case['n'], case['failable']),
@@ -1176,7 +1271,7 @@ def run_graders(ctx, res, rng):
             except EvalError as e:
                 res.notes.append('generator problem: %s' % e)
                 continue
-            dk = '%s/%s/%s' % (case['kind'], case['family'], case['tol'][0])
+            dk = '%s/%s/%s%s' % (case['kind'], case['family'], case['tol'][0], '/reused' if 'history' in case else '')
             dist[dk] = dist.get(dk, 0) + 1
             verd['band' if want is None else ('credit' if want else 'no-credit')] += 1
             res.boundary += classes.count('band')
@@ -1184,6 +1279,8 @@ def run_graders(ctx, res, rng):
                 res.witnesses.append({'key': case_key(case), 'kind': 'grader', 'case': case_json(case), 'what': what,
                                       'answer_text': obs['ans_text'], 'student_text': obs['stu_text'],
                                       'handed_out': repr(obs['handed_out']), 'functions': case.get('funcs'),
+                                      'earlier_submissions_on_the_same_object':
+                                          [render(p['student']) for p in case.get('history', [])],
                                       'observed': repr(obs['result'])})
             if obs['status'] != 'ret' or obs['evals'] is None or obs['results'] is None:
                 res.disagreements.append({'kind': 'grader-call', 'what': 'call did not return / evaluations not captured: %s'
@@ -1253,6 +1350,8 @@ def case_from_json(d):
     c['student'] = tup(d['student'])
     c['funcs'] = {k: (dict(v, trees=[tup(t) for t in v['trees']]) if v.get('type') == 'tree' else v)
                   for k, v in d.get('funcs', {}).items()}
+    if 'history' in d:
+        c['history'] = [{'student': tup(h['student']), 'style': h['style']} for h in d['history']]
     return c
 
 
